@@ -147,6 +147,73 @@ def sec_axes(rec, patches=None):
         rec.fact("axes/quaternion()", all(z3.eq(zr(quat[0, k]), q[k].e) for k in range(4)), key="C11/axes/quaternion", detail={})
 
 
+def replay_from_axes_pairs(cex):
+    """installed library: from_axes with every pair of axes of known molecules reproduces all three axes"""
+    with load.real_modules():
+        from acryo import Molecules
+        from scipy.spatial.transform import Rotation
+
+        rng = np.random.default_rng(3)
+        rot = Rotation.from_quat(np.concatenate([rng.normal(size=(6, 4)), [[0, 0, 0, 1.0], [1.0, 0, 0, 0], [0, 1.0, 0, 0]]]))
+        m0 = Molecules(np.zeros((len(rot), 3)), rot)
+        bad = {}
+        for pair in (("z", "y"), ("z", "x"), ("x", "y")):
+            try:
+                m = Molecules.from_axes(m0.pos, **{a: getattr(m0, a) for a in pair})
+                err = max(float(np.abs(getattr(m, a) - getattr(m0, a)).max()) for a in "zyx")
+                if err > 1e-5:
+                    bad["from_axes(%s, %s)" % pair] = {"max_axis_error": err}
+            except Exception as e:
+                bad["from_axes(%s, %s)" % pair] = repr(e)[:160]
+        return len(bad) > 0, {"problems": bad}
+
+
+def sec_from_axes_pairs(rec, patches=None):
+    """from_axes given (z, x) or (x, y): the axis it derives before building the rotation is the molecule's own third axis, for every orientation
+    (the two-axes -> rotation step, axes_to_rotator, is recorded here and decided in the align-rotator / axes-degenerate sections)"""
+    L = _load(patches)
+    MC = L["acryo.molecules.core"]
+    rec.encodes("acryo/molecules/core.py:Molecules.from_axes (completion of the missing axis)", "acryo/molecules/core.py:cross")
+    rec.assume("axes_to_rotator is replaced by a recorder of its (z, y) arguments; the orientation is an arbitrary unit quaternion")
+    q, hq = _qsym("q")
+    hyps = [hq]
+    names = {f"q{c}" for c in "xyzw"}
+    seen = []
+
+    def rec_rot(z, y, *a, **k):
+        seen.append((z, y))
+        return "ROTATOR"
+
+    MC.axes_to_rotator = rec_rot
+    fake_cls = lambda pos, rotator=None, *a, **k: ("MOLECULES", rotator)  # noqa: E731
+    pos = np.zeros((1, 3))
+    for pair in (("z", "y"), ("z", "x"), ("x", "y")):
+        def run():
+            del seen[:]
+            m = MC.Molecules(to_symarray([[0, 0, 0]]), rotation.SymRotation([q]))
+            ax = {"z": m.z, "y": m.y, "x": m.x}
+            out = MC.Molecules.from_axes.__func__(fake_cls, pos, **{a: ax[a] for a in pair})
+            return ax, list(seen), out
+
+        tag = "from_axes(%s,%s)" % pair
+        for pi, pth in enumerate(explore(run, assumptions=hyps, max_paths=20)):
+            if not pth.ok:
+                rec.fact(f"{tag}/path{pi}/runs", False, key="C11/from_axes/raises", detail={"exc": repr(pth.exc)[:200]}, reproduced=replay_from_axes_pairs({})[0])
+                continue
+            ax, sn, out = pth.result
+            h = hyps + [pth.condition()]
+            ok1 = len(sn) == 1 and isinstance(out, tuple) and out[1] == "ROTATOR"
+            rec.fact(f"{tag}/path{pi}/one-rotation-from-(z,y)", ok1, key="C11/from_axes/structure", detail={"calls": len(sn)}, reproduced=True if ok1 else replay_from_axes_pairs({})[0])
+            if not ok1:
+                continue
+            gz, gy = (_obj(to_symarray(v)).reshape(-1, 3) for v in sn[0])
+            for nm, got in (("z", gz), ("y", gy)):
+                want = _obj(ax[nm]).reshape(-1, 3)
+                for a in range(3):
+                    rec.query(f"{tag}/path{pi}/{nm}{a}-handed-to-the-rotation-is-the-molecule's-{nm}", h, zr(got[0, a]) == zr(want[0, a]), key="C11/from_axes/derived-axis", names=names, replay=replay_from_axes_pairs,
+                              nonlinear=True)
+
+
 def sec_motion(rec, qm=None, patches=None):
     """world/internal rotations and translations, copy semantics (molecule orientation = exact rational quaternion qm, everything else symbolic)"""
     L = _load(patches)
@@ -741,7 +808,7 @@ def sec_axes_degenerate(rec, patches=None):
 def sections(tier):
     R = rotation.R30
     qs = [R[9], R[10], R[1], R[4]] if quick(tier) else R
-    S = [("axes", "checks.c11", "sec_axes", {}), ("inplace", "checks.c11", "sec_inplace", {}), ("coords", "checks.c11", "sec_coords", {}),
+    S = [("axes", "checks.c11", "sec_axes", {}), ("from-axes-pairs", "checks.c11", "sec_from_axes_pairs", {}), ("inplace", "checks.c11", "sec_inplace", {}), ("coords", "checks.c11", "sec_coords", {}),
          ("representations", "checks.c11", "sec_representations", {}), ("align-rotator", "checks.c11", "sec_align_rotator", {}), ("axes-degenerate", "checks.c11", "sec_axes_degenerate", {}), ("euler-rotate", "checks.c11", "sec_euler_rotate", {}), ("motion-batch", "checks.c11", "sec_motion_batch", {})]
     for i, q in enumerate(qs):
         S.append((f"motion-{i}", "checks.c11", "sec_motion", {"qm": q}))
